@@ -13,6 +13,7 @@
 (*                  previous input as its parent                           *)
 (***************************************************************************)
 EXTENDS Expr
+MCFuncTable == {}
 
 I(n) == DecOfInt(n)
 Lit(v) == [op |-> "lit", v |-> v]
